@@ -30,8 +30,15 @@ commutative ring in the proofs), and is a transcription of the loops that exist 
 * `gaussCoefficients`                       — `SeparableGaussianArrayFilter::calculate_coefficients` (SeparableGaussianArrayFilter.cxx:103)
 * `metzKernel`                              — `build_gauss` / `build_metz` (SeparableMetzArrayFilter.cxx:84, :113), at `Float` precision
 
+`guardAsCoded` (default `true`) selects the guard `n % 2 != 0` of the inverse real-data transform as it is in the code
+(`n` = half the real length, so a last dimension of length 2 is rejected); `false` is only used by the driver to print,
+next to the answer of the code as it is, the answer of a library in which that guard is repaired.
+
 Not modelled: 32-bit overflow; `float` rounding of the transforms (the model runs at binary64 and is compared within a
-derived bound); irregular arrays.
+derived bound); irregular arrays.  Proved about this model (Props.lean): loops = convolution sums for all index ranges,
+circular = linear convolution without wrap-around, separability in any axis order, bit reversal, `fourier1d` = DFT for
+every power of two, inverse ∘ forward = id, Hermitian index map; NOT proved: convolution theorem, real-data packing trick,
+n-dimensional recursion (correspondence only).
 -/
 namespace StirVerif.C19
 
@@ -206,14 +213,14 @@ def realLenOkInverse (L : Nat) : Bool := realLenOkForward L && (L / 2) % 2 == 0
 
 /-- `ArrayFilterUsingRealDFTWithPadding<1>`: constructor (`set_kernel`: wrap-around placement, padded length = kernel
     length) followed by `do_it` for the output index `i`.  `none` = `error()`. -/
-def dftFilter1 (kmin kmax : Int) (k : Int → K) (inMin inMax : Int) (x : Int → K) (outMin outMax : Int) :
-    Option (Int → K) :=
+def dftFilter1 (kmin kmax : Int) (k : Int → K) (inMin inMax : Int) (x : Int → K) (outMin outMax : Int)
+    (guardAsCoded : Bool := true) : Option (Int → K) :=
   let L := (kmax + 1 - kmin).toNat
   if !realLenOkForward L then none else
   -- set_kernel: `norm(min_indices) < .01` ? kernel itself : wrapped copy — both are `toPeriodic1`
   let kp := toPeriodic1 L kmin kmax k
-  -- do_it
-  if !realLenOkInverse L then none else
+  -- do_it (`guardAsCoded = false`: the inverse real-data transform with the guard its error message describes)
+  if guardAsCoded && !realLenOkInverse L then none else
   if inMin == 0 && inMax == (L : Int) - 1 && outMin == 0 && outMax == (L : Int) - 1 then
     let xp := Array.ofFn (n := L) fun q => x (Int.ofNat q.val)
     some fun i => circConv1At L kp xp i.toNat
@@ -255,14 +262,14 @@ def circConvNDAt (sizes : List Nat) (kp xp : Array K) (p : List Nat) : K :=
     acc + kp.getD (flatIdx sizes (moduloIdx d sizes)) 0 * xp.getD (flatIdx sizes (q.map Int.toNat)) 0) 0
 
 /-- `ArrayFilterUsingRealDFTWithPadding<n>` for one output multi-index -/
-def dftFilterND (kbox : List R) (k : List Int → K) (ibox : List R) (x : List Int → K) (obox : List R) :
-    Option (List Int → K) :=
+def dftFilterND (kbox : List R) (k : List Int → K) (ibox : List R) (x : List Int → K) (obox : List R)
+    (guardAsCoded : Bool := true) : Option (List Int → K) :=
   let sizes := sizesOf kbox
   let last := sizes.getLastD 0
   let outer := sizes.dropLast
   if !(realLenOkForward last && outer.all isPow2) then none else
   let kp := toPeriodicND sizes kbox k
-  if !realLenOkInverse last then none else
+  if guardAsCoded && !realLenOkInverse last then none else
   -- do_it: input range == output range == padding range ? use directly : wrap-around copy — both are `toPeriodicND`
   let _ := obox
   let xp := toPeriodicND sizes ibox x
@@ -425,10 +432,12 @@ def fourierRealData1 (sign : Int) (v : Array Float) : Option (Array Cplx) :=
   pure (c.setIfInBounds n ⟨(c0.re - c0.im) * 2, 0⟩)
 
 /-- `inverse_fourier_1d_for_real_data_corrupting_input` -/
-def invFourierRealData1 (sign : Int) (c : Array Cplx) : Option (Array Float) :=
+def invFourierRealData1 (sign : Int) (c : Array Cplx) (guardAsCoded : Bool := true) : Option (Array Float) :=
   if c.size = 0 then some #[] else
   let n := c.size - 1
-  if n % 2 ≠ 0 then none else do
+  -- `if (n % 2 != 0) error("… can only handle arrays of even length")` — `n` is HALF the length of the real array;
+  -- `guardAsCoded = false` drops this test (the real length `2n` is always even)
+  if guardAsCoded && n % 2 ≠ 0 then none else do
   let c := (List.range (n / 2)).foldl (fun (c : Array Cplx) i0 =>
     let i := i0 + 1
     let t1 := c[i]! + (c[n - i]!).conj
@@ -453,15 +462,15 @@ def fourierRealDataND (sign : Int) : List Nat → Array Float → Option (Array 
     onOuter n stride (fourier1d (expArray sign)) a
 
 /-- `inverse_fourier_for_real_data_corrupting_input` (n-D); `dims` are the sizes of the complex input (last = n+1) -/
-def invFourierRealDataND (sign : Int) : List Nat → Array Cplx → Option (Array Float)
+def invFourierRealDataND (sign : Int) (guardAsCoded : Bool := true) : List Nat → Array Cplx → Option (Array Float)
   | [], _ => some #[]
-  | [_], c => invFourierRealData1 sign c
+  | [_], c => invFourierRealData1 sign c guardAsCoded
   | n :: rest, c => do
     let stride := prodNat rest
     -- inverse_fourier_1d(c, sign): fourier_1d(c, -sign); c /= c.size()
     let c ← onOuter n stride (fourier1d (expArray (-sign))) c
     let c := c.map fun v => v / (n : Cplx)
-    let parts ← (List.range n).mapM fun i => invFourierRealDataND sign rest (c.extract (i * stride) ((i + 1) * stride))
+    let parts ← (List.range n).mapM fun i => invFourierRealDataND sign guardAsCoded rest (c.extract (i * stride) ((i + 1) * stride))
     pure (parts.foldl (· ++ ·) #[])
 
 /-! ## Gaussian kernel (SeparableGaussianArrayFilter::calculate_coefficients), `Float`/`Float32` -/
